@@ -20,7 +20,7 @@ type regexModel struct {
 	prog    *syntax.Prog
 }
 
-const regexMaxInput = 300
+const regexMaxInput = 1200
 
 func compileRegex(pattern string) (*regexModel, error) {
 	re, err := syntax.Parse(pattern, syntax.Perl)
